@@ -393,6 +393,31 @@ fn handle_violation(
             last = again;
         }
     }
+    let (mut mw, mut mp) = (mw, mp);
+    if level == "B" && reproduced == 0 {
+        // Level B does not own the kernel schedule, but its oracles are schedule-invariant: a
+        // mismatch that shows neither on the minimised world (3 runs) nor, again, on the original
+        // one (3 runs) is noise of the environment (a starved child, a timed-out socket), not an
+        // observation to report. It is counted, with what was seen, and dropped.
+        for _ in 0..3 {
+            let again = runner(w, p);
+            if again.mismatches.iter().any(|m| m.clause == first.clause) {
+                reproduced += 1;
+                last = again;
+                mw = w.clone();
+                mp = p.clone();
+            }
+        }
+        if reproduced == 0 {
+            worker::WATCHDOG_SCALE.store(1, std::sync::atomic::Ordering::SeqCst);
+            sum.violations -= 1;
+            *sum.probes.entry("level_b_mismatch_seen_once_never_again_in_6_reruns".to_string()).or_default() += 1;
+            if sum.samples.len() < 8 {
+                sum.samples.push(serde_json::json!({"level_b_unreproduced": {"scenario_index": index, "clause": first.clause, "detail": first.detail}}));
+            }
+            return;
+        }
+    }
     worker::WATCHDOG_SCALE.store(1, std::sync::atomic::Ordering::SeqCst);
     let m = last
         .mismatches
